@@ -375,8 +375,8 @@ PLAN["C15"] = {
 # parallelism per tier (memory: the n >= 11 triples need 5-15 GB each; 62 GB machine)
 PLAN["C01"]["kani_jobs"] = {"quick": 8, "thorough": 5}
 PLAN["C02"]["kani_jobs"] = {"quick": 12, "thorough": 6}
-PLAN["C03"]["kani_jobs"] = {"quick": 12, "thorough": 8}
-PLAN["C06"]["kani_jobs"] = {"quick": 10, "thorough": 6}
+PLAN["C03"]["kani_jobs"] = {"quick": 12, "thorough": 6}
+PLAN["C06"]["kani_jobs"] = {"quick": 10, "thorough": 4}     # n = 12 in-word variables: 10 GB per triple
 PLAN["C08"]["kani_jobs"] = {"quick": 12, "thorough": 6}
 PLAN["C10"]["kani_jobs"] = {"quick": 10, "thorough": 5}
 PLAN["C11"]["kani_jobs"] = {"quick": 8, "thorough": 3}
